@@ -7,7 +7,7 @@
     [extract_line]), shared with C19. *)
 From Coq Require Import List ZArith NArith Bool String Arith.
 From RG Require Import Base.Str Base.Num Model.Recipe Model.Compiler Model.Parser Model.Printer Model.LineCol
-  Proofs.LineCol Proofs.ParserFuel Proofs.ParserC07.
+  Proofs.LineCol Proofs.ParserFuel Proofs.ParserC07 Proofs.ParserSafe.
 Import ListNotations.
 Open Scope string_scope.
 Open Scope list_scope.
@@ -22,13 +22,25 @@ Proof. vm_compute. reflexivity. Qed.
 
       forall srcs, match compile_src srcs with SrcParseCrash _ _ | SrcCompileCrash _ => False | _ => True end
 
-    Not proved in the restricted form either ("no numeric literal of 309 or more digits implies no
-    [SrcParseCrash]"): it needs an invariant of every parser function (the literal-evaluation flag is only
-    ever set by [sc_number] on a suffix of the input) plus a bound on [Num.b64]; the flag is threaded so
-    that the statement is expressible, and the correspondence suite [outcome] searches it (quick: 3 k,
-    thorough: 60 k inputs incl. 15..4301-digit literals).  [SrcCompileCrash] (list.remove, the final
-    Recipe check, OverflowError in Quantity.has_equal_value_to) belongs to Model/Compiler.v and is treated
-    with C01/C05. *)
+    Proved part: the PARSER half.  [NL x] = no run of more than 308 consecutive ASCII digits occurs in [x]
+    (every numeric literal - integer, decimal, each part of a fraction, numbers inside braces - has fewer
+    than 309 digits).  Then no block of [srcs] makes the parse-tree transformer fail: neither [int(float(s))]
+    (OverflowError) nor [int(s)] (ValueError, 4300-digit limit) nor [number /= 100], and no literal evaluates
+    to inf.  The proof shows that every parser function only moves to a suffix of its input and that the
+    literal-evaluation flag is set by [sc_number] alone; [Num.b64] does not overflow below 2^1024 - 2^970
+    (> 10^308; the rounding analysis at the top binade is in Proofs/ParserSafeNum.v).  The bound is sharp:
+    309 digits crash ([C07_overflow_refuted]).
+    NOT covered: [SrcCompileCrash] (list.remove, the final Recipe check, OverflowError in
+    Quantity.has_equal_value_to = known finding F2b) belongs to Model/Compiler.v and is treated with C01/C05. *)
+Theorem C07_no_crash_partial : forall srcs, Forall NL srcs -> forall b c, compile_src srcs <> SrcParseCrash b c.
+Proof. exact compile_src_no_parse_crash. Qed.
+Print Assumptions C07_no_crash_partial.
+
+Example C07_no_crash_partial_ex : Forall NL [s "x = 12 1/2 kg {3} y"; s "fry(50% of x)"].
+Proof.
+  constructor; [apply NL_short, Nat.leb_le; vm_compute; reflexivity|].
+  constructor; [apply NL_short, Nat.leb_le; vm_compute; reflexivity | constructor].
+Qed.
 
 (** The full statement is refuted by the faithful model: a 309-digit integer literal makes
     [int(float(s))] raise OverflowError (ast.py, decimal), a fraction part of 4301 digits makes [int(s)]
